@@ -1037,8 +1037,9 @@ class CSSSerializer:
                 type_, val = item.type, item.value
                 if valuesOnly and type_ == cssutils.css.CSSComment:
                     continue
-                elif hasattr(val, 'cssText'):
+                elif hasattr(type(val), 'cssText'):
                     # RGBColor or CSSValue if a CSSValueList
+                    # (test the class: hasattr on the object would serialise it twice)
                     out.append(val.cssText, type_)
                 else:
                     if val and val[0] == val[-1] and val[0] in '\'"':
@@ -1139,8 +1140,9 @@ class CSSSerializer:
 
                 if valuesOnly and type_ == cssutils.css.CSSComment:
                     continue
-                elif hasattr(val, 'cssText'):
+                elif hasattr(type(val), 'cssText'):
                     # RGBColor or CSSValue if a CSSValueList
+                    # (test the class: hasattr on the object would serialise it twice)
                     out.append(val.cssText, type_)
                 elif type_ == 'CHAR' and val in '-+*/':
                     out.append(val, type_, alwaysS=True)
